@@ -1076,6 +1076,7 @@ class Ctx(object):
         self.atoms = []
         self.input_atoms = {}
         self.interned = {}
+        self.blasted = {}
         self.decided = {}
         self.max_decisions = opts.get("max_decisions", 4000)
         self.n_cmp = 0
@@ -1156,6 +1157,39 @@ class Ctx(object):
             self.interned[key] = a
         return a
 
+    def _blast(self, x, m):
+        """Bit-blast on demand: when a shift/mask by a power of two meets atoms that are bounded in [0, 2^K), K <= 64,
+        but not bit-decomposed, each such atom is replaced by sum(2^i * b_i) over fresh 0/1 atoms (their defining
+        equality is added to the path condition).  Returns the rewritten x."""
+        if m & (m - 1) or not isinstance(x, SymInt):
+            return x
+        out = None
+        for a, c in list(x.t.items()):
+            if a.lo is None or a.hi is None or a.lo < 0 or a.hi <= 1 or a.hi >= (1 << 64):
+                continue
+            bits = self.blasted.get(a)
+            if bits is None:
+                K = a.hi.bit_length()
+                t = {}
+                zsum = []
+                for i in builtins.range(K):
+                    nm = "%s~b%d" % (a.name, i)
+                    b = self._new_atom(nm, None, 0, 1, (a.cv >> i) & 1, "blast")
+                    b._z = _const(nm)
+                    t[b] = 1 << i
+                bits = SymInt(t, 0, a.cv)
+                self.blasted[a] = bits
+                zb = [bb._z for bb in t]
+                f = z3.And([z3.And(v >= 0, v <= 1) for v in zb] + [a.z == bits.z()])
+                self.engine.assert_input("blast:" + a.name, f)
+            if out is None:
+                out = SymInt(dict(x.t), x.k, x.cv)
+            del out.t[a]
+            out = out + bits * c
+            if not isinstance(out, SymInt):
+                return out
+        return x if out is None else out
+
     def div_const(self, x, m):
         """floor(x / m), m a concrete non-zero int."""
         if m == 0:
@@ -1170,6 +1204,9 @@ class Ctx(object):
         rlo, rhi = _b(R)
         if rlo is not None and rhi is not None and rlo // m == rhi // m:
             return D + (rlo // m)
+        xb = self._blast(x, m)
+        if xb is not x:
+            return self.div_const(xb, m)
         key = ("div", _key(R), m)
 
         def mk():
@@ -1198,6 +1235,9 @@ class Ctx(object):
         rlo, rhi = _b(R)
         if rlo is not None and rhi is not None and rlo // m == rhi // m:
             return R - m * (rlo // m)
+        xb = self._blast(x, m)
+        if xb is not x:
+            return self.mod_const(xb, m)
         key = ("mod", _key(R), m)
 
         def mk():
